@@ -2,3 +2,12 @@ NA = {}
 chk("C16", "enum", "model_checking",
     "Exhaustive enumeration of finite input families of every exported helper/constructor named by the property (all strings up to a length bound over a 9-byte alphabet that covers every branch of the length decoder, all 2^24 (revision, authority) pairs, all byte slices up to a length bound, every subset and order of constructor options, op sequences on attributes), each executed on the real function under recover() and compared with the equations of the statement.",
     "bounded-exhaustive enumeration of inputs against reference equations", "DESIGN.md 5 C16", ENUM_NOTE)
+chk("C01", "enum", "model_checking",
+    "Bounded-exhaustive enumeration of typed requests over explicit field alphabets (message IDs, strings incl. empty/binary/long-form, every scope/deref, size/time pairs, 15 filter shapes, 0..2(3) attributes / changes / values, every control kind singly and in ordered pairs), encoded by two independent encoders (raw BER builder; captured go-ldap client) and decoded by the real readRequest; field-by-field comparison with the typed request; every unsupported protocolOp tag 0..30 in 11 body shapes and every bind version/SASL form must not be delivered as a supported kind.",
+    "bounded-exhaustive input enumeration, differential against two independent encoders", "DESIGN.md 5 C01", ENUM_NOTE)
+chk("C02", "enum", "model_checking",
+    "Explicit-state BFS over the mutation graph of every canonical request (operation x control kind): all single mutations (30 replacement node kinds at every node, child delete/duplicate/swap/append/prepend, 9 length-octet corruptions, 4 content corruptions, truncation at every byte) and all pairs of mutations (quick: on a stated subset of roots; thorough: all roots), each state decoded by the real readRequest with error-level and debug-level loggers under recover().",
+    "explicit-state BFS over a mutation graph to depth 2 on the real decoder", "DESIGN.md 5 C02", ENUM_NOTE)
+chk("C14", "enum", "model_checking",
+    "Exhaustive enumeration of control values over field alphabets, singly and in ordered pairs, in both directions: raw-BER controls on five request envelopes through the real request decoder; gldap control values on Bind and SearchDone responses through the real ResponseWriter, re-parsed by the strict parser and by go-ldap's DecodeControl; plus the complete Behera constructor table over 14 values per option.",
+    "bounded-exhaustive enumeration, two independent decoders", "DESIGN.md 5 C14", ENUM_NOTE)
